@@ -4,7 +4,30 @@ matrix/intdense.rs (crt, GFpEchelonBuilder, det_matz, CRTDetBuilder, compute_lat
 and matrix/intsparse.rs (SparseMat::{detz,detp4,ker_p256}, berlekamp_massey, crt, compute_lattice_index).
 Request lines: see harness/src/ops_intmat.rs and lean/Ymq/Drv/IntMat.lean.
 """
-import math, struct, json, os
+# SIZE AUDIT (quick tier), measured on cases('quick', Random(1)) before the boundary family was added
+#   op                         quick max                 thorough           code supports                         boundary classes reached in quick (before the audit)
+#   im_crt / im_crt_sparse     64 moduli of 62 bits      same               <= 64 moduli (I4096)                  0..64 moduli, > 64 in chk: reached (designed)
+#   im_echelon / im_detp       dim 20, p to 2^61-1,      same (x30 count)   p < 2^62 (Montgomery), i64 entries    entries to 2^62, 8-row blocks (>= 10 rows): reached
+#   im_det / im_det_gram       dim 60, full i64, 64 CRT  same               <= 64 primes of 62 bits               1..64 primes: reached
+#   im_crtdet                  estimates across the 60/120-bit prime-count steps                                   reached (designed)
+#   snf_* (single operations)  h to 125 bits             same               h: u128, divider asserts h < 2^125    h of 63 / 64 / 65 bits: 2..12 cases per op; 124, 125 bits: 1..34 per
+#                                                                                                                 op; 60|61 (the 2^63/N limit of submul_n): 16 each in snf_reduce; 126: refused
+#   im_lattice_index           index to 108 bits (3      < 2^120 (cap in    hmax < 2^126                          index above 2^64: 3 of 163 cases, nothing at 64|65 exactly, nothing
+#                              cases above 64 bits)      the generator)                                           above 108 bits: MISSING at the top of the range in both tiers
+#   im_snf / im_snf_new        index to 99 bits          < 2^100 (cap)      index < 2^125                         60..64 bits: 10+ each; 65, 100..125: MISSING in both tiers
+#   im_det_sparse / detp4 /    dim 60, |coef| <= 32768   dim 300            dim < 2^16, coef i16, p*norm < 2^63   i16 limits +-32767/8 and refusals: reached; primes next to 2^63/norm: reached
+#     mulp4 / norm / primes
+#   im_ker_p256                p of 20,44,61,89,127,     same 7 moduli      U256 p; arithmetic chosen by          the three type limits 55|56, 119|120, 181|182 bits and the 64|65 switch of the
+#                              180,250 bits (18 cases)   (540 cases)        p.bits() < 56 / < 120 / < 182 and     start vector were NEVER hit in either tier (each fixed modulus sits inside an
+#                                                                           norm < 256 / < 256 / < 1024;          arm); norm limits 255|256, 1023|1024 only by chance of the random coefficients
+#                                                                           p * norm < 2^253
+#   im_bm / im_bm_big          p <= 61 bits              same               u64 p / <u128, U256> (used by         im_bm_big never ran above 61 bits although ker_p256 uses that instantiation
+#                                                                           ker_p256 below 120 bits)              up to 119 bits: MISSING
+#   im_sparse_lattice_index    dim 24, index to 39 bits  same               as im_lattice_index                   small sizes only (f64 selection findings live here; not extended)
+# Added (boundary_cases, first in both tiers): im_ker_p256 at p of exactly 55,56,63,64,65,119,120,127,128,129,181,182,249,250
+# bits x norm in {small, 255, 256, 1023, 1024} (rank n-1, simple root, full Krylov sequence: a kernel vector is due);
+# im_bm_big at 62..65, 118, 119 bits; im_lattice_index and im_snf with an index of exactly 64,65,100,119,120,124,125 bits.
+import math, struct, json, os, random, itertools
 from fractions import Fraction
 from vlib.pipeline import Case, ROOT
 from vlib import gen
@@ -1145,6 +1168,107 @@ def perm_parity(p):
     return sign
 
 
+# ======================================================================================
+# boundary size classes (size audit)
+# ======================================================================================
+
+
+def _fork(rng, label):
+    """own stream for the boundary family: depends on the run's seed, leaves the stream of the older families untouched"""
+    return random.Random(f"{label}:{rng.getstate()[1][:4]}")
+
+
+def big_lattice(rng, n, bits, extra):
+    """rows generating a full-rank lattice of Z^n whose index has EXACTLY `bits` bits: n moderate elementary divisors, so
+    that the entries stay small and the f64 estimates of the routines keep their precision"""
+    per = bits // n
+    while True:
+        diag = [rng.randrange(1 << max(0, per - 1), 1 << (per + 1)) | 1 for _ in range(n - 1)]
+        h0 = math.prod(diag)
+        lo, hi = -(-(1 << (bits - 1)) // h0), ((1 << bits) - 1) // h0
+        if 1 <= lo <= hi < 1 << (per + 3):
+            diag.append(rng.randrange(lo, hi + 1))
+            break
+    B = udv(rng, n, diag, 5 * n, maxabs=max(diag) * 30)
+    rows = [r[:] for r in B]
+    for _ in range(extra):
+        v = [0] * n
+        for _ in range(rng.randrange(1, 4)):
+            k = rng.choice([1, -1, 1, -1, 2, -2, 3])
+            v = [a + k * b for a, b in zip(v, rng.choice(B))]
+        if any(v):
+            rows.append(v)
+    rng.shuffle(rows)
+    return rows, math.prod(diag)
+
+
+def ker_matrix(rng, n, norm, p):
+    """sparse n x n matrix of rank n-1 modulo p (last row = combination of the rows 1..n-2; 0 a simple root of the characteristic
+    polynomial, so that a kernel vector is due) with entries +-1 except one entry of row 0 chosen so that SparseMat::norm is
+    exactly `norm` (0 = leave it small)"""
+    for _ in range(300):
+        M = to_dense(sparse_matrix(rng, n, "rand" if rng.randrange(2) else "diagdom"), n)
+        M = [[max(-1, min(1, x)) for x in r] for r in M]
+        v = [0] * n
+        for i in range(1, n - 1):
+            k = rng.choice([1, -1, 1, 2, 0])
+            v = [a + k * b for a, b in zip(v, M[i])]
+        M[n - 1] = v
+        if norm:
+            j = next((j for j in range(n) if M[0][j]), None)
+            if j is None:
+                continue
+            M[0][j] = norm - sum(x for jj, x in enumerate(M[0]) if x > 0 and jj != j)
+        sp = to_sparse(M)
+        if not all(sp) or (sparse_norm(sp) != norm if norm else sparse_norm(sp) >= 200):
+            continue
+        c1 = sum(det_mod([[M[i][j] for j in range(n) if j != k] for i in range(n) if i != k], p) for k in range(n)) % p
+        if c1 and not krylov_deficient(sp, p):
+            return sp
+    return None
+
+
+# ker_p256 picks its arithmetic by p.bits() < 56 / < 120 / < 182 (and norm < 256 / < 256 / < 1024), fills its start vector
+# differently up to 64 bits, and the widest instantiation (U256 / I256) needs p * norm below 2^253
+KER_P_BITS = [55, 56, 63, 64, 65, 119, 120, 127, 128, 129, 181, 182, 249, 250]
+KER_NORMS = [0, 255, 256, 1023, 1024]
+LATTICE_H_BITS = [64, 65, 100, 119, 120, 124, 125]
+
+
+def boundary_cases(rng, tier):
+    reps = 1 if tier == "quick" else 4
+    for rep in range(reps):
+        for bits in KER_P_BITS:
+            for norm in KER_NORMS:
+                if bits + norm.bit_length() > 253:
+                    continue
+                p = gen.rand_prime(rng, bits)
+                sp = ker_matrix(rng, rng.choice([5, 8, 12]), norm, p)
+                if sp:
+                    yield Case(f"im_ker_p256 {enc_sparse(sp)} {p}", k=False, tag=f"edge{bits}/{norm}")
+        # Berlekamp-Massey in the <u128, U256> instantiation: ker_p256 uses it below 120 bits
+        for bits in (62, 63, 64, 65, 118, 119):
+            p = gen.rand_prime(rng, bits)
+            L = rng.choice([2, 5, 12])
+            taps = [rng.randrange(p) for _ in range(L)]
+            taps[-1] = rng.randrange(1, p)
+            seq = [rng.randrange(p) for _ in range(L)]
+            while len(seq) < 2 * L + 2:
+                seq.append(sum(t * seq[-1 - j] for j, t in enumerate(taps)) % p)
+            yield Case(f"im_bm_big {p} {lst(seq)}", k=False, tag=f"edge{bits}")
+        # lattice index and Smith form with an index straddling 2^64 and up to the documented end (hmax < 2^126; divider < 2^125)
+        for bits in LATTICE_H_BITS:
+            for n in (8, 12):
+                rows, h = big_lattice(rng, n, bits, rng.choice([0, 2, n]))
+                lo, hi = bracket(rng, h)
+                yield Case(f"im_lattice_index {enc(rows)} {f64bits(lo)} {f64bits(hi)}", k=False, tag=str(h))
+                if any(all(r[j] == 0 for r in rows) for j in range(n)) or any(abs(x) >= 1 << 31 for r in rows for x in r):
+                    continue
+                rels = rels_of(rows, sorted(rng.sample(GENS, n), reverse=True))
+                lo, hi = bracket(rng, h)
+                yield Case(f"im_snf {enc_sparse(rels)} {f64bits(lo)} {f64bits(hi)}", k=False, tag=str(h))
+
+
 def _all_cases(tier, rng, extended):
     scale = 4 if tier == "quick" else 120
     if extended:
@@ -1160,8 +1284,9 @@ def _all_cases(tier, rng, extended):
 
 
 def cases(tier, rng, extended=False):
+    brng = _fork(rng, "C19-boundary")           # before selftest draws from rng (it does so on the first call only)
     selftest(rng)
-    for c in _all_cases(tier, rng, extended):
+    for c in itertools.chain(boundary_cases(brng, tier), _all_cases(tier, rng, extended)):
         # the loops of reduce_cols / normalize / the permutation walk do not terminate when their arithmetic is wrong:
         # these requests take milliseconds, a short watchdog keeps a broken build from stalling the whole check
         if c.timeout is None:
@@ -1994,7 +2119,10 @@ def _finding_key(case, ans):
     return None
 
 
-RULE = ("families: CRT (0..64 moduli from the det_matz/CRTDetBuilder prime walks, small and random primes; values 0, +-(P-1)/2, P/2, "
+RULE = ("first, in both tiers, a deterministic boundary family: kernel mod p at p of exactly 55,56,63..65,119,120,127..129,181,182,249,250 bits x "
+        "matrix norm {small,255,256,1023,1024} (the type limits of ker_p256), Berlekamp-Massey <u128,U256> at 62..65,118,119 bits, lattice index "
+        "and Smith form with an index of exactly 64,65,100,119,120,124,125 bits; then "
+        "families: CRT (0..64 moduli from the det_matz/CRTDetBuilder prime walks, small and random primes; values 0, +-(P-1)/2, P/2, "
         "random; unreduced residues; non-coprime/short/zero moduli; >64 moduli in the checked profile); permutations (identity, reversal, "
         "cycles, few transpositions, random; n = 1..60); echelon builder (13 moduli incl. 2^61-1 and the walk primes, dim 1..20, square and "
         "rectangular, dependent/zero rows, zero column, entries up to 2^62, >= 10 rows for the blocked elimination); det_matz (dim 1..12 with "
